@@ -126,8 +126,11 @@ def handle (line : String) : String :=
           let rt := match parseCpp cfg (leavesOf e) text with
             | some t => cexprBeq t v.term
             | none => false
-          pure (Json.mkObj ([("ok", Json.mkObj [("text", text), ("ty", v.ty), ("incs", jstrs v.incs)]), ("roundtrip", rt)] ++ flags))
-        | .error er => pure (Json.mkObj ([("err", errClass er)] ++ flags))
+          let head : List (String × Json) := [("ok", Json.mkObj [("text", text), ("ty", v.ty), ("incs", jstrs v.incs)]), ("roundtrip", rt)]
+          pure (Json.mkObj (head ++ flags))
+        | .error er =>
+          let head : List (String × Json) := [("err", errClass er)]
+          pure (Json.mkObj (head ++ flags))
       else if op == "spec" then
         let e ← parseExpr (← j.getObjVal? "expr")
         let lv ← (← j.getObjVal? "leaves").getArr?
